@@ -58,12 +58,26 @@ def event_for_case(samples, cid, nc, ids, variant):
          "forms": {"perm": [], "dict": [], "df": [], "list": [], "dict_classes": [], "df_classes": [],
                    "dict_default": [], "df_default": []},
          "ova": [], "counts": {}, "metrics": {}, "metrics_dict": {}, "perm_metrics": {},
-         "accuracy": [0, 0], "stacked": {}, "stacked2": {}, "shape_ok": True}
-    labels = [s[0] for s in samples]
-    preds = [s[1] for s in samples]
+         "accuracy": [0, 0], "acc_narrow": [[0, 0], [0, 0]], "stacked": {}, "stacked2": {}, "shape_ok": True}
+    # class naming: integers, or strings of differing lengths (sorted like the ids) - a class that only
+    # occurs among the predictions may then have the longest name / need the widest dtype
+    NAMES = ["b", "cat", "other-long"]
+    naming = ["int", "str", "narrow"][(cid // 2 + variant) % 3]
+    WIDE = [0, 1, 300]                                   # the last id does not fit the labels' uint8
+    nm = (lambda c: NAMES[c]) if naming == "str" else (lambda c: WIDE[c]) if naming == "narrow" else (lambda c: c)
+    unm = (lambda x: NAMES.index(str(x))) if naming == "str" else \
+        (lambda x: WIDE.index(int(x))) if naming == "narrow" else (lambda x: int(x))
+    e["naming"] = naming
+    labels = [nm(s[0]) for s in samples]
+    preds = [nm(s[1]) for s in samples]
+    if naming == "narrow":
+        labels = np.array(labels, dtype=np.uint8 if max(labels) < 256 else np.int64)   # narrow label ids
+        preds = np.array(preds, dtype=np.int64)                                        # default-int predictions
+    if explicit:
+        classes_arg_real = [nm(c) for c in classes_arg]
     weights = [s[2] / ws if ws != 1 else s[2] for s in samples]
     try:
-        kw = {"classes": classes_arg} if explicit else {}
+        kw = {"classes": classes_arg_real} if explicit else {}
         if all(w == 1 for w in weights) and cid % 3 == 0:
             cm = ConfusionMatrix(labels=labels, predictions=preds, **kw)       # default weights
         else:
@@ -75,7 +89,7 @@ def event_for_case(samples, cid, nc, ids, variant):
         e["exc"] = f"{type(ex).__name__}: {ex}"[:200]
         return e
     try:
-        cls = [int(c) for c in cm.classes]
+        cls = [unm(c) for c in cm.classes]
         n = len(cls)
         M = np.asarray(cm.matrix)
         e["built"] = {"classes": cls, "matrix": mat_ints(M, ws)}
@@ -130,17 +144,22 @@ def event_for_case(samples, cid, nc, ids, variant):
             arr = np.asarray(getattr(st2, name)())
             dd = getattr(st2, name)(as_dict=True)
             if name == "tpr_ci":
-                ok = ok and arr.shape == (2, 3, n, 2) and all(np.asarray(dd[c]).shape == (2, 3, 2) for c in cm.classes)
+                ok = ok and arr.shape == (2, 3, n, 2) and all(np.asarray(dd[c]).shape == (2, 3, 2) for c in st2.classes)
                 ok = ok and all(np.array_equal(np.asarray(dd[c]), arr[:, :, j, :], equal_nan=True)
-                                for j, c in enumerate(cm.classes))
+                                for j, c in enumerate(st2.classes))
                 continue
-            ok = ok and arr.shape == (2, 3, n) and all(np.asarray(dd[c]).shape == (2, 3) for c in cm.classes)
+            ok = ok and arr.shape == (2, 3, n) and all(np.asarray(dd[c]).shape == (2, 3) for c in st2.classes)
             if arr.shape == (2, 3, n):
                 e["stacked2"][name] = {
                     "arr": [[rats(arr[a][b]) for b in range(3)] for a in range(2)],
-                    "dict": [[[gamma.proj_rat(np.asarray(dd[c])[a][b], 1000) for c in cm.classes]
+                    "dict": [[[gamma.proj_rat(np.asarray(dd[c])[a][b], 1000) for c in st2.classes]
                               for b in range(3)] for a in range(2)]
-                    if all(np.asarray(dd[c]).shape == (2, 3) for c in cm.classes) else []}
+                    if all(np.asarray(dd[c]).shape == (2, 3) for c in st2.classes) else []}
+        # the same matrix stored in narrow integer dtypes (every entry fits, the trace does not)
+        e["acc_narrow"] = [gamma.proj_rat(ConfusionMatrix(matrix=(np.asarray(M * ws, dtype=np.int64) * 30).astype(np.uint8),
+                                                          classes=list(cm.classes)).accuracy(), 1000),
+                           gamma.proj_rat(ConfusionMatrix(matrix=(np.asarray(M * ws, dtype=np.int64) * 4000).astype(np.int16),
+                                                          classes=list(cm.classes)).accuracy(), 1000)]
         ci = np.asarray(cm.tpr_ci(alpha=0.1))
         ok = ok and ci.shape == (n, 2)
         e["accuracy"] = gamma.proj_rat(cm.accuracy(), 1000)
